@@ -82,6 +82,9 @@ Failing(e) ==
     [] e.k = "bytes" -> UBytes(e, Asgs(e))
     [] e.k = "z3abs" -> UZ3Abs(e, Asgs(e))
     [] e.k = "outcome" -> UOutcome(e)
+    \* integer-valued string operations (StrLen, StrIndexOf, StrToInt) folded on constants: the folded constant has the
+    \* width the operation declares for its symbolic form (lend), whatever the width of the index operand (C05)
+    [] e.k = "strw" -> IF e.out = "ok" /\ e.lenf # e.lend THEN {"result-width"} ELSE {}
 
 \* NB: the trace is bound by LET inside the ASSUME: a top-level definition would be re-evaluated (the whole
 \* file re-parsed) at every reference Trace[i], making validation quadratic in the shard size.
